@@ -1197,8 +1197,8 @@ class InterpCore:
                     if isinstance(v, InstV) and isinstance(v.attrs.get("_base_value_"), str) and isinstance(v.cls, ClassV) and \
                             not any(self.class_lookup(v.cls, m) is not None for m in ("__str__", "__format__", "__repr__")):
                         v = v.attrs["_base_value_"]  # instance of a str subclass without its own formatting
-                    if isinstance(v, (str, int)) and not isinstance(v, bool) and x.conversion == -1 and x.format_spec is None:
-                        parts.append(str(v))
+                    if (isinstance(v, (str, int)) or v is None) and x.conversion == -1 and x.format_spec is None:
+                        parts.append(str(v))  # str, int, bool and None format as str() gives them
                     elif isinstance(v, str) and x.conversion == ord("r") and x.format_spec is None:
                         parts.append(repr(v))
                     else:
